@@ -646,6 +646,9 @@ class Explorer:
         self.known = list(known)   # known-finding regions applicable to this harness: dicts with label, region, id
         self.errors = []
         self.unknowns = []
+        self.second_budget = 0      # obligations still to be re-decided by the independent solver binaries (thorough tier)
+        self.second_checked = 0
+        self.second_disagreements = []
 
     # -- solver helpers --------------------------------------------------------------
     def _check(self, *extra, quick=False):
@@ -664,6 +667,46 @@ class Explorer:
         if r == "sat" and not extra:
             self.model = self.solver.model()
         return r
+
+    def cross_check(self, negated, verdict, label):
+        """Re-decide one obligation (path condition AND NOT property) with the stand-alone z3 4.8.12 and cvc5 1.0.3 binaries
+        on the exported SMT-LIB2 text; a sat/unsat disagreement with the in-process z3 5.x is a harness error."""
+        import os as _os
+        import subprocess
+        import tempfile
+
+        self.solver.push()
+        try:
+            self.solver.add(negated)
+            text = self.solver.to_smt2()
+        finally:
+            self.solver.pop()
+            self.model = None
+        fd, path = tempfile.mkstemp(suffix=".smt2", dir=_os.environ.get("TMPDIR", "/tmp"))
+        try:
+            with _os.fdopen(fd, "w") as f:
+                f.write("(set-logic ALL)\n" + text)
+            answers = {}
+            for name, cmd in (("z3-4.8.12", ["/usr/bin/z3", "-T:20", path]), ("cvc5-1.0.3", ["cvc5", "--tlimit=20000", path])):
+                try:
+                    out = subprocess.run(cmd, capture_output=True, text=True, timeout=40).stdout
+                except (OSError, subprocess.TimeoutExpired):
+                    continue
+                if "(error" in out:
+                    continue                       # the back end could not read the encoding: inconclusive, not a verdict
+                first = out.strip().split("\n")[0].strip() if out.strip() else ""
+                if first in ("sat", "unsat"):
+                    answers[name] = first
+            if answers:
+                self.second_checked += 1
+            for name, a in answers.items():
+                if a != verdict:
+                    self.second_disagreements.append(f"{label}: in-process z3 says {verdict}, {name} says {a}")
+        finally:
+            try:
+                _os.unlink(path)
+            except OSError:
+                pass
 
     def add(self, *c):
         self.solver.add(*c)
@@ -999,6 +1042,9 @@ class SymCtx:
         extra = []
         for _ in range(8):
             r = ex._check(z3.Not(c), *extra)
+            if not extra and ex.second_budget > 0 and r in ("sat", "unsat") and not z3.is_true(z3.simplify(c)):
+                ex.second_budget -= 1
+                ex.cross_check(z3.Not(c), r, label)
             if r == "sat" and ex.exact_defs:
                 r = ex._check(z3.Not(c), *(extra + ex.exact_defs))      # refine: the abstraction of a/b made exact
             if r == "unsat":
